@@ -1,1 +1,4 @@
 import Pfl
+#print axioms Pfl.CFG.cfgMem_iff
+#print axioms Pfl.Rx.thompson_lang
+#print axioms Pfl.ENFA.langDiff_none_iff
